@@ -1766,7 +1766,7 @@ class SFTPAttrs(Record):
             flags |= FILEXFER_ATTR_SIZE
             attrs.append(UInt64(self.size))
 
-        if self.alloc_size is not None:
+        if sftp_version >= 6 and self.alloc_size is not None:
             flags |= FILEXFER_ATTR_ALLOCATION_SIZE
             attrs.append(UInt64(self.alloc_size))
 
@@ -5752,6 +5752,9 @@ class SFTPClient:
         if len(names) > 1:
             raise SFTPBadMessage('Too many names returned')
 
+        if not names:
+            raise SFTPBadMessage('No names returned')
+
         if check != FXRP_NO_CHECK:
             if self.version < 6:
                 try:
@@ -5831,6 +5834,9 @@ class SFTPClient:
 
         if len(names) > 1:
             raise SFTPBadMessage('Too many names returned')
+
+        if not names:
+            raise SFTPBadMessage('No names returned')
 
         return self.decode(cast(bytes, names[0].filename),
                            isinstance(path, (str, PurePath)))
